@@ -696,7 +696,10 @@ Fixpoint eof_loop (fuel : nat) (m : M) : M * sres :=
     | (m', SContinue) => eof_loop f m'
     | (m', SSuspend) => (m', SSuspend)
     | (m', SPanic n) => (m', SPanic n)
-    | (m', _) => if f_html fl then (m', SPanic 3) (* unreachable!() *) else (m', SSuspend)
+    | (m', _) =>
+      (* html: unreachable!();  xml: a Script request from a tag completed by the end of the input cannot be handed to
+         the caller of end(): the loop goes on so that the EOF token is delivered *)
+      if f_html fl then (m', SPanic 3) else eof_loop f m'
     end
   end.
 
